@@ -14,6 +14,8 @@ TRUSTED = ['rustc MIR of the emitted code', 'engine/idl.py']
 def run(ctx):
     rep = Report('C20')
     gen_thrift.defaults(rep)
+    if ctx['tier'] == 'thorough':
+        gen_thrift.defaults(rep, split=True)   # same rules on the split-file output
     rep.programs = 14
     rep.floor('G20.b', 4)
     rep.floor('G20.a', 8)
